@@ -546,7 +546,7 @@ func attempt(o *hx.Out, k int, st *state, c *chainT, known []hdrInfo, b *block.B
 				}
 			}
 		}
-		obs = fmt.Sprintf("ok bh=%d hh=%d stored=%s stale=%d", after.bh, after.hh, stored, stale)
+		obs = fmt.Sprintf("ok bh=%d hh=%d stored=%s stale=%d pool=%s", after.bh, after.hh, stored, stale, poolIDs(after.pool))
 	} else {
 		ledger, pool, db := "same", "same", "same"
 		if after.bh != before.bh || after.tip != before.tip || after.root != before.root {
@@ -607,13 +607,19 @@ func runCase(o *hx.Out, k int, st *state, cd *cand, r *prng.R) {
 	}
 	o.Line("bal "+strings.Join(bl, " "), "ok")
 	s0 := c.snapshot()
+	// the pooled transactions with the facts the post-block filter (IsTxStillRelevant) reads
 	var pt []string
+	var pooled []*transaction.Transaction
 	for _, t := range c.bc.GetMemPool().GetVerifiedTransactions() {
-		pt = append(pt, txKey(t))
+		pt = append(pt, st.txToken(t))
+		pooled = append(pooled, t)
 	}
 	sort.Strings(pt)
 	if len(pt) == 0 {
 		pt = []string{"-"}
+	}
+	for _, l := range st.recLines(pooled) {
+		o.Line(l, "ok")
 	}
 	o.Line("pool "+strings.Join(pt, ","), "ok")
 	if st.stale != nil && !spec.k.skip {
